@@ -42,6 +42,27 @@ claim("C13",
       "TLA+ spec Bf2Import : TLC exhaustive on bounded symbolic layouts, C->S trace validation of real imports", "DESIGN.md section 4 C13")
 
 
+BEC2_NOTE = "Trusted: TLC; AES.tla (FIPS-197 vectors; cross-checked against OpenSSL in C03/C16); CRC16.tla; for ECC blocks the ECDH x-coordinate comes from OpenSSL and SHA-256 from hashlib (oracle relation, counted separately); symbolic cryptography in the abstract model."
+claim("C02",
+      "TLC exhausts the abstract BEC2 model (block subsets and orders x decryptor sequences x session keys ending in 00 x CRC byte classes): with matching decryptors the file key and every block are recovered, unopened blocks pass through. Real files over every ordered subset of block kinds x key classes (incl. keys ending in 00 and keys/versions whose wrapped payload has a CRC byte 00, found by search) x decryptor subsets are written and read by the real code; TLC validates every written header block by block (AES.tla / OpenSSL ECIES key) and the read-back against ReadBec2 and the authentic content.",
+      BEC2_NOTE, "TLA+ specs Bec2Concrete/MC_Bec2 : TLC exhaustive on the abstract model, C->S trace validation of real write/read events", "DESIGN.md section 4 C02")
+claim("C03",
+      "The specification's Serialize, written from the documented layout with AES.tla as an independent AES, is evaluated by TLC on the content of every recorded call and must equal the real writer's bytes EXACTLY (Bf3File.to_binary at start offsets 0, 1, 5, 2^8, 2^16-1, 2^16 and random; BEC2 bodies behind real headers) and the text envelope exactly; AES.tla is cross-checked against openssl enc on random (key, block) pairs each run; TLC proves the layout lemmas (size field = real size independent of key/offset, absolute contiguous addresses, fields recovered, payloads to EOF) on the bounded abstract instance.",
+      BEC2_NOTE, "TLA+ spec Bf3Layout/Text/Bec2Concrete as independent serialiser evaluated by TLC : byte-exact C->S trace validation; TLC exhaustive layout lemmas", "DESIGN.md section 4 C03")
+claim("C06",
+      "TLC exhausts CipherOnly and RoundTrip on the abstract instance with encrypted components; on the real code, for every content length mod 16, trailing-zero count and all-zero content (BF3 and BEC2 framing, components from set_config): payload region = AES-128-CBC(key, zero IV, zero-padded content) byte-exact per AES.tla, read-back equals the content up to its declared length, TLC scans the written file for plaintext / session key / security code / customer key needles, and writes with the cipher unregistered, raising, or raising only in encrypt must fail without emitting anything.",
+      BEC2_NOTE, "TLA+ spec Bf3Layout (+AES) : TLC exhaustive on the abstract instance, C->S trace validation incl. needle scans", "DESIGN.md section 4 C06")
+claim("C07",
+      "TLC exhausts the abstract key-management model (file creations with explicit or drawn keys, block lists, repeated writes, reads with decryptor sequences, spliced headers): every block wraps the file key, differing keys are rejected, unopened blocks pass through, nonces and ephemerals are never reused. Histories of real file creations and repeated writes are recorded through the public RNG / key-generator registration seams and validated by the stateful Trace_KeyMgmt (one 16-byte draw = session key iff none given; one fresh ephemeral per ECC block per write; session key unchanged by writes); written headers are validated block by block, spliced headers must be rejected, subset-read + rewrite must keep unopened blocks byte-identical.",
+      BEC2_NOTE, "TLA+ specs MC_Bec2 + Trace_KeyMgmt/Trace_Bec2 : TLC exhaustive scenarios, stateful C->S trace validation through registry seams", "DESIGN.md section 4 C07")
+claim("C08",
+      "TLC checks the container at real scale for every payload length 0..253 with AES.tla (padding arithmetic, exact inverse, marker/CRC/other-key errors, customer-key slot); the real SoftwareCustKeyEncryptor / ConfigSecurityCodeEncryptor are run for every length, payloads covering every value of each CRC byte, zero tails, other keys, bit flips, and every wrap/unwrap is judged by TLC (frame layout, exact bytes, exact inverse, error verdicts).",
+      BEC2_NOTE, "TLA+ spec Bec2Concrete (Container) : TLC exhaustive over lengths at real scale, C->S trace validation", "DESIGN.md section 4 C08")
+claim("C09",
+      "TLC exhausts the abstract ECC-block algebra (symmetric DH; recipient = explicit matching encryptor else the published key of the block's selector; invalid points refused). Real InitEccAuthBlock.pack outputs for OpenSSL-generated recipients (edge scalars 1, 2, n-2, n-1 and random), selectors 0..3 and key classes are opened by an independent ECIES: OpenSSL ECDH + hashlib SHA-256 + AES.tla; TLC checks length, selector, 0x04, ephemeral = the generated key, recipient rule (seen at the DH seam), recovered key = session key; invalid points (off-curve, >= p, zero) must be refused where OpenSSL refuses them.",
+      BEC2_NOTE + " The ECDH number itself is OpenSSL's (TLC integers are 32-bit).", "TLA+ specs MC_Bec2/Bec2Concrete : TLC exhaustive algebra, C->S trace validation with OpenSSL as ECDH oracle", "DESIGN.md section 4 C09, section 6")
+
+
 def main():
     props = [json.loads(l) for l in open(os.path.join(VERIF, "properties.jsonl"))]
     m = {"version": 1,
